@@ -172,7 +172,8 @@ def rule_sizes(rep, prog):
         if len(rs) == 1:
             w = _div_ceil(rs[0].arg(1))
             fn = deep_strip(rs[0].arg(2))
-            grow_ok = w is not None and self_field(w[0], "size") and w[1] == ('const', 64) and fn[0] == 'fn' and "Default" in fn[1] \
+            # words = size.div_ceil(64) for the NEW size: read back from self.size after the write, or the very value written to it
+            grow_ok = w is not None and (self_field(w[0], "size") or deep_strip(w[0]) == deep_strip(writes["size"][1])) and w[1] == ('const', 64) and fn[0] == 'fn' and "Default" in fn[1] \
                 and b.pos_dominates(writes["size"][0], rs[0].pos) and self_field(rs[0].arg(0), "map")
         ok = add_ok and size_ok and order_ok and grow_ok
         detail += f"; add_ok={add_ok} size_ok={size_ok} order_ok={order_ok} grow_ok={grow_ok}"
